@@ -395,6 +395,13 @@ func c05Unit(c *RunCtx, unit int) {
 			t := live[0]
 			c.Stats.Count("tokens:" + kind)
 			newpw := fmt.Sprintf("Recov3red!%d", r.Intn(1e6))
+			if kind == "recover" && (unit+ai)%3 == 1 && ac.Pw != "" {
+				// the owner remembers the password after all and logs in (and out) while the link is outstanding:
+				// an ordinary login is neither a use of the link nor a newer request — the link stays what it was
+				step(act("login", 1, ai, "ok"))
+				step(act("logout", 1, -9, ""))
+				c.Stats.Count("logins-while-a-recovery-link-is-outstanding")
+			}
 			if kind == "recover" && (unit+ai)%4 == 0 && len(ac.Pw) >= 8 {
 				// the owner "resets" to the password already on file: the link is used up all the same
 				newpw = ac.Pw
